@@ -74,13 +74,22 @@ func TestPolicy(t *testing.T) {
 			overflowEdit, overflowK := "", 0
 			twoSignatures := false
 			manyHeaders := false
+			decoy := ""
 			nvar := c.Int("nvariations", 0, 3)
 			for i := 0; i < nvar; i++ {
-				kind := c.PickStr("variation", "validity", "lifetime", "integrity", "foreign-integrity", "number-overflow", "two-signatures", "many-headers", "method", "req-header", "resp-header", "content-type", "cache-control", "expires-header", "status")
+				kind := c.PickStr("variation", "validity", "lifetime", "integrity", "foreign-integrity", "number-overflow", "two-signatures", "decoy-signature", "many-headers", "method", "req-header", "resp-header", "content-type", "cache-control", "expires-header", "status")
 				kinds = append(kinds, kind)
 				switch kind {
 				case "validity":
 					host, scheme := u.Host, "https"
+					if c.Chance("validity.relative", 1, 6) {
+						// a validity-url that is no absolute URL at all: it has no origin, so it cannot be
+						// same-origin with anything
+						rel := c.PickStr("validity.relativeForm", "/resource.validity", "resource.validity", "?v=1", "//"+u.Host+"/x.validity", "")
+						l.ValidityURL = rel
+						p.ValidityScheme, p.ValidityHost = "", "<relative:"+rel+">"
+						break
+					}
 					switch c.Pick("validity.how", 5) {
 					case 0:
 						scheme = "http"
@@ -128,6 +137,11 @@ func TestPolicy(t *testing.T) {
 						p.Integrity = integrityEdit
 						c.Probe("other version's integrity scheme used consistently")
 					}
+				case "decoy-signature":
+					// besides the genuine signature the header lists an entry nobody signed, whose
+					// (unsigned) date / expires / validity-url parameters are beyond reproach: each
+					// entry stands or falls by itself, so the verdict is the genuine one's
+					decoy = c.PickStr("decoy.position", "first", "last")
 				case "many-headers":
 					// a response with 20-40 distinct (harmless) header fields
 					if !manyHeaders {
@@ -215,6 +229,11 @@ func TestPolicy(t *testing.T) {
 					for j := 0; j < n; j++ {
 						parts = append(parts, c.PickDict("cc.dir", dirs, `^[a-z][a-z0-9-]{1,24}$`))
 					}
+					if c.Chance("cc.unbalancedQuote", 1, 8) {
+						// a quoted-string that never ends - as the LAST directive, where the reference and
+						// a comma-splitting parser read the directives before it alike
+						parts = append(parts, c.PickStr("cc.unbalanced", `no-cache="set-cookie`, `ext="x\"`, `ext="`, `"`))
+					}
 					p.CacheControl = strings.Join(parts, c.PickStr("cc.sep", ",", ", ", " , "))
 					var hs []gen.HV
 					for _, h := range l.RespHeaders {
@@ -280,6 +299,37 @@ func TestPolicy(t *testing.T) {
 					l.File = buf.Bytes()
 				}
 			}
+			if decoy != "" && integrityEdit == "" && overflowEdit == "" && !twoSignatures {
+				if label, ps, perr := refsxg.ParseSignature(pub.SignatureHeaderValue); perr == nil {
+					mid := l.Date + (l.Expires-l.Date)/2
+					if l.Expires-l.Date > 604800 || l.Expires < l.Date {
+						mid = l.Date
+					}
+					for i := range ps {
+						switch ps[i].Key {
+						case "sig":
+							ps[i].Raw = "*AAAA*"
+						case "date":
+							ps[i].Raw = fmt.Sprint(mid - 300000)
+						case "expires":
+							ps[i].Raw = fmt.Sprint(mid + 300000)
+						case "validity-url":
+							ps[i].Raw = refsxg.RawString(fmt.Sprintf("%s://%s/decoy.validity", u.Scheme, u.Host))
+						}
+					}
+					d := refsxg.FormatSignature(label+"d", ps)
+					if decoy == "first" {
+						pub.SignatureHeaderValue = d + ", " + pub.SignatureHeaderValue
+					} else {
+						pub.SignatureHeaderValue += ", " + d
+					}
+					var buf bytes.Buffer
+					if pub.Write(&buf) == nil {
+						l.File = buf.Bytes()
+					}
+					c.Probe("Signature header with an unsigned decoy entry")
+				}
+			}
 			if twoSignatures {
 				h := pub.SignatureHeaderValue
 				pub.SignatureHeaderValue = h + c.PickStr("twoSig.sep", ", ", ",", " , ") + strings.Replace(h, "label", "label2", 1)
@@ -334,7 +384,7 @@ func TestPolicy(t *testing.T) {
 			// history on ONE object: the publisher edits the exchange it has just verified -
 			// one response header renamed, the number of headers unchanged - signs it again
 			// and verifies again; the verdict must be the new policy's, not a remembered one
-			if c.Bool("editAndReverify") && integrityEdit == "" && overflowEdit == "" && !twoSignatures {
+			if c.Bool("editAndReverify") && integrityEdit == "" && overflowEdit == "" && !twoSignatures && decoy == "" {
 				var names []string
 				for _, k := range core.SortedKeys(map[string][]string(pub.ResponseHeaders)) {
 					lk := strings.ToLower(k)
